@@ -226,7 +226,7 @@ func (C12) Generate(c *Ctx, r *Rand, index int) *Scenario {
 		// close the sibling route so that the last resort (overwrite in place) runs
 		sc.Plan.Steps = append(sc.Plan.Steps, StepFault{Site: Pick(rf, []string{"copy.sibling.create", "copy.sibling.rename"}), Occ: 1, Action: "error", Errno: Pick(rf, []string{"EACCES", "EROFS", "EBUSY"})})
 	}
-	pre := c.ExecOpts(sc, RunOpts{})
+	pre := c.ExecOpts(withReadCounting(sc), RunOpts{})
 	c.Count("prerun")
 	type so struct {
 		site string
@@ -710,4 +710,22 @@ func firstLines(b []byte, n int) string {
 		s = s[:400] + "…"
 	}
 	return s
+}
+
+// withReadCounting returns a copy of the scenario in which every input stream goes through the
+// reader wrapper (whole-file delivery, no fault), so that the trace carries the byte counts.
+func withReadCounting(sc *Scenario) *Scenario {
+	c := sc.Clone()
+	for _, stream := range []string{"input", "fm", "load"} {
+		covered := false
+		for _, r := range c.Plan.Readers {
+			if r.Stream == stream && r.Name == "" {
+				covered = true
+			}
+		}
+		if !covered {
+			c.Plan.Readers = append(c.Plan.Readers, ReaderPlan{Stream: stream, ErrAt: -1})
+		}
+	}
+	return c
 }
